@@ -238,11 +238,49 @@ def check_signals(cfg, events, before, after):
     return True, ""
 
 
+def _zw_only(ref, r):
+    """classification aid only: does the display row `r` of the reference hold zero-width characters only?
+    Also counted: zero-width characters followed by one space on a row that was broken inside a word
+    (wrap 'space', the reference pulls the word up behind that space; urwid keeps the space as the wrap
+    point of a row of zero-width characters, e.g. b'\xcc\x81 aaa' at width 1)."""
+    if not r.cells or r.cells[0][2] != 0:
+        return False
+    wide = [(i, w) for (i, _x, w) in r.cells if w > 0]
+    if not wide:
+        return True
+    disp = ref.display()
+    return ref.wrap == "space" and r.end is None and len(wide) == 1 and wide[0][0] == r.cells[-1][0] and disp[wide[0][0]] == " "
+
+
 def _zw_row(ref):
     """classification aid only (never used by an oracle): does some display row consist of zero-width
     characters only?  urwid leaves such characters out of its layout (see the final report)."""
     rows = ref.rows()
-    return bool(rows) and any(r.cells and all(w == 0 for (_i, _x, w) in r.cells) for r in rows)
+    return bool(rows) and any(_zw_only(ref, r) for r in rows)
+
+
+def _zw_at(ref):
+    """classification aid only (never used by an oracle): which of {the cursor, the start of the edit
+    text} lie on a display row that consists of zero-width characters only -> set of 'cursor' / 'text-start'.
+    (urwid's layout has no segment for such characters, so every offset on such a row is mapped to the
+    closest offset of a neighbouring row: known finding C10-KF1.)"""
+    rows = ref.rows()
+    out = set()
+    if not rows:
+        return out
+    ncap = len(ref.caption)
+    for r in rows:
+        if _zw_only(ref, r):
+            on_row = {ref.from_disp(d) for (d, _x) in r.positions() if d >= ncap}
+            if ref.pos in on_row:
+                out.add("cursor")
+            if 0 in on_row:
+                out.add("text-start")
+    return out
+
+
+def _zw_obs0(ref):
+    return sorted({"cursor-before", "cursor-after"} if "cursor" in _zw_at(ref) else set()) + (["text-start"] if "text-start" in _zw_at(ref) else [])
 
 
 def apply_and_check(w, ref, cfg, ev, log):
@@ -252,12 +290,13 @@ def apply_and_check(w, ref, cfg, ev, log):
     v = {}
     before_text, before_pos = w.edit_text, w.edit_pos
     ref_before = (ref.value(), ref.offset(), ref.prefs)
+    zw_before = _zw_at(ref)
     del log[:]
     try:
         ret = do_event(w, size, ev)
     except Exception as e:  # noqa: BLE001
         v["no-exception"] = (False, f"raised {type(e).__name__}: {e}"[:300], True)
-        return v, False, {"before": [repr(before_text), before_pos]}
+        return v, False, {"before": [repr(before_text), before_pos], "zero_width_at": sorted(f"{x}-before" for x in zw_before)}
     events = list(log)
     after_text, after_pos = w.edit_text, w.edit_pos
     obs = {"before": [repr(before_text), before_pos], "after": [repr(after_text), after_pos], "returned": repr(ret), "signals": repr([(e[0], e[1]) for e in events])}
@@ -379,6 +418,8 @@ def apply_and_check(w, ref, cfg, ev, log):
         v["no-exception"] = (True, "", True)
     obs["ref_before"] = [repr(ref_before[0]), ref_before[1], repr(ref_before[2])]
     obs["zero_width_row"] = _zw_row(ref)
+    zw_after = _zw_at(ref)
+    obs["zero_width_at"] = sorted({"cursor-before" for x in zw_before if x == "cursor"} | {"cursor-after" for x in zw_after if x == "cursor"} | {"text-start" for x in zw_before | zw_after if x == "text-start"})
     return v, alive, obs
 
 
@@ -427,8 +468,8 @@ def evaluate(cfg, text0, pos0, path, ev, ref=None):
             v["no-exception"] = (True, "", True)
         except Exception as e:  # noqa: BLE001
             v["no-exception"] = (False, f"render/cursor query raised {type(e).__name__}: {e}"[:300], True)
-            return v, False, {"zero_width_row": _zw_row(ref)}, ref
-        return v, True, {"zero_width_row": _zw_row(ref)}, ref
+            return v, False, {"zero_width_row": _zw_row(ref), "zero_width_at": _zw_obs0(ref)}, ref
+        return v, True, {"zero_width_row": _zw_row(ref), "zero_width_at": _zw_obs0(ref)}, ref
     v, alive, obs = apply_and_check(w, ref, cfg, ev, log)
     return v, alive, obs, ref
 
@@ -471,7 +512,8 @@ def _why_class(clause, why, ev):
 def record(tally, cfg, text0, pos0, path, ev, verdicts, obs):
     for clause, (ok, why, nt) in verdicts.items():
         def detail(clause=clause, why=why):
-            return {"clause": clause, "why": why, "cfg": cfg, "text0": text0, "pos0": pos0, "path": list(path), "event": ev, "obs": obs, "class": ("zero-width-row|" if obs.get("zero_width_row") else "") + _why_class(clause, why, ev)}
+            # inner_clause / zero_width_at: top-level copies for the known-finding predicates
+            return {"clause": clause, "inner_clause": clause, "why": why, "cfg": cfg, "text0": text0, "pos0": pos0, "path": list(path), "event": ev, "obs": obs, "zero_width_at": list(obs.get("zero_width_at", [])), "class": ("zero-width-row|" if obs.get("zero_width_at") else "") + _why_class(clause, why, ev)}
 
         tally.case(clause, ok, nt, detail, sample={"cfg": cfg, "text0": text0, "pos0": pos0, "path": list(path), "event": ev})
 
@@ -596,7 +638,8 @@ def random_task(args):
             ok, info = random_history(cfg, text0, pos0, events)
 
             def detail(info=info, cfg=cfg, text0=text0, pos0=pos0, events=events):
-                return {"clause": "random-histories", "why": f"step {info.get('step')}: [{info.get('clause')}] {info.get('why')}", "cfg": cfg, "text0": text0, "pos0": pos0, "events": events, "obs": info.get("obs"), "class": ("zero-width-row|" if (info.get("obs") or {}).get("zero_width_row") else "") + _why_class(info.get("clause", ""), str(info.get("why")), info.get("event"))}
+                zw = list((info.get("obs") or {}).get("zero_width_at", []))
+                return {"clause": "random-histories", "inner_clause": info.get("clause"), "event": info.get("event"), "why": f"step {info.get('step')}: [{info.get('clause')}] {info.get('why')}", "cfg": cfg, "text0": text0, "pos0": pos0, "events": events, "obs": info.get("obs"), "zero_width_at": zw, "class": ("zero-width-row|" if zw else "") + _why_class(info.get("clause", ""), str(info.get("why")), info.get("event"))}
 
             tally.case("random-histories", ok, True, detail, sample={"cfg": cfg, "text0": text0, "pos0": pos0, "events": events})
     tally.cpu = time.process_time() - cpu0
@@ -641,6 +684,17 @@ def numeric_initial_one(ctor, kw):
     return ok, f"{ctor}(default={kw['default']!r}, ...) holds {text!r}", True, text
 
 
+def numeric_offending(ctor, kw, text):
+    """classification aid for the failure details: the characters of `text` outside the alphabet (a leading
+    '-' is not counted when negatives are allowed), as a sorted string"""
+    if text is None:
+        return ""
+    cfg = {"IntEdit": {"kind": "intedit"}, "IntegerEdit": {"kind": "integeredit", "base": kw.get("base"), "neg": kw.get("allow_negative")}, "FloatEdit": {"kind": "floatedit", "sep": kw.get("decimal_separator"), "neg": kw.get("allow_negative")}}[ctor]
+    allowed, neg = allowed_alphabet(cfg)
+    body = text[1:] if (neg and text[:1] == "-") else text
+    return "".join(sorted({c for c in body if c not in allowed}))
+
+
 # ----------------------------------------------------------------------------------------------
 # bounds
 def texts_upto(alpha, n):
@@ -659,7 +713,7 @@ def configs(tier):
     for wrap in ("space", "any", "clip"):
         for align in ("left", "center", "right"):
             for W in (1, 2, 3, 4) if quick else (1, 2, 3, 4, 5, 6):
-                if quick and W == 4 and align != "left":
+                if quick and W in (1, 4) and align != "left":
                     continue
                 cfgs.append(edit_cfg("", W, wrap, align, multiline=True))
     # captions
@@ -721,12 +775,18 @@ def tasks_for(tier):
     tasks = []
     for cfg in numeric_configs(tier):
         tasks.append({"cfg": cfg, "inits": [("", 0)], "depth": 4 if quick else 5, "expand_len": 3 if quick else 4, "click_depth": 2})
-    per_task = 150 if quick else 400
-    for cfg in configs(tier):
+    per_task = 80 if quick else 400
+    for ci, cfg in enumerate(configs(tier)):
         texts = core_texts if is_core(cfg) else other_texts
         inits = [(t, p) for t in texts for p in range(len(t) + 1)]
+        if quick:
+            # time budget of the quick tier (the run has to stay well below 45 s wall also when the cores
+            # are shared): every second initial state, the phase alternating with the configuration index
+            # (deterministic; neighbouring configurations -- same wrap and alignment, next width -- take
+            # complementary halves).  The thorough tier takes every initial state.
+            inits = [x for k, x in enumerate(inits) if (k + ci) % 2 == 0]
         for i in range(0, len(inits), per_task):
-            depth = (3 if is_core(cfg) else 2) if quick else 4
+            depth = 2 if quick else 4
             tasks.append({"cfg": cfg, "inits": inits[i : i + per_task], "depth": depth, "expand_len": 8, "click_depth": 1 if (not quick and is_core(cfg)) else 0, "pref_keys": ["up", "down", "a"] if quick else PREF_KEYS})
     return tasks
 
@@ -762,9 +822,10 @@ def _pool_map(fn, tasks, procs):
 def _result(name, rule, bound, exhaustive, total, clause, t0):
     fails = []
     classes = total.fail.get(clause, {})
-    # round-robin over the reason classes, at most 20 reported
+    # round-robin over the reason classes, at most 20 reported; the classes of the known zero-width-row
+    # finding go last so that they can never crowd a different failure out of the report
     for k in range(CAP_PER_CLASS):
-        for cls, (n, items) in sorted(classes.items(), key=lambda kv: -kv[1][0]):
+        for cls, (n, items) in sorted(classes.items(), key=lambda kv: (kv[0].startswith("zero-width-row|"), -kv[1][0])):
             if k < len(items) and len(fails) < CAP_REPORT:
                 fails.append({**items[k], "failures_in_class": n})
     return {
@@ -797,8 +858,8 @@ def run(tier="quick", seed=0):
     bound = (
         f"Edit: {ncfg} configurations (wrap space/any/clip x align x width 1..{4 if tier == 'quick' else 6}; captions, multiline/allow_tab/mask, str and UTF-8 bytes) x "
         f"{len(core_texts)} texts for the {sum(1 for c in configs(tier) if is_core(c))} plain configurations ({'all of length <= 2 over {a, space, newline, 中, U+0301}, all <= 3 over {a, space, 中}, 6 longer ones' if tier == 'quick' else 'all <= 3 over {a, space, newline, 中, U+0301}, all <= 4 over {a, space, 中}, 11 longer ones (up to 9 characters)'}) and {len(other_texts)} texts ({'all <= 2, 6 longer' if tier == 'quick' else 'all <= 2, all <= 3 without U+0301, 11 longer'}) for the others "
-        f"x every cursor x every event ({len(PRINT_KEYS + NAV_KEYS + UNUSED_KEYS)} keys, a click on every cell, a button-3 press), "
-        f"preferred-column states expanded to event sequences of length {'3 (plain configurations) / 2 (others)' if tier == 'quick' else 4}; numeric: {nnum} configurations, all key sequences up to length {4 if tier == 'quick' else 5} over {len(NUM_KEYS)} keys from the empty widget (memoised on state)"
+        f"x every cursor{' (quick tier: every second (text, cursor) pair, the phase alternating with the configuration)' if tier == 'quick' else ''} x every event ({len(PRINT_KEYS + NAV_KEYS + UNUSED_KEYS)} keys, a click on every cell, a button-3 press), "
+        f"preferred-column states expanded to event sequences of length {2 if tier == 'quick' else 4}; numeric: {nnum} configurations, all key sequences up to length {4 if tier == 'quick' else 5} over {len(NUM_KEYS)} keys from the empty widget (memoised on state)"
     )
     checks = []
     for clause in CLAUSES:
@@ -810,7 +871,7 @@ def run(tier="quick", seed=0):
     with _Utf8():
         for ctor, kw in numeric_initial_cases():
             ok, why, nt, text = numeric_initial_one(ctor, kw)
-            chk.case((ctor, repr(kw)), ok, {"clause": "numeric-alphabet-initial", "why": why, "ctor": ctor, "kwargs": repr(kw)}, nontrivial=nt, sample={"ctor": ctor, "kwargs": repr(kw)})
+            chk.case((ctor, repr(kw)), ok, {"clause": "numeric-alphabet-initial", "why": why, "ctor": ctor, "kwargs": repr(kw), "text": text, "allow_negative": bool(kw.get("allow_negative", False)), "offending": numeric_offending(ctor, kw, text)}, nontrivial=nt, sample={"ctor": ctor, "kwargs": repr(kw)})
     chk.t0 = t1
     checks.append(chk.result())
 
